@@ -268,6 +268,12 @@ func c10Phase2(r *Run, scn Scenario, U []Account, states []*Node, known map[stri
 		long := sdk.AccAddress(append(bytes.Repeat([]byte{0xAB}, 12), u.Addr...))
 		short := sdk.AccAddress(append([]byte{}, u.Addr[:8]...))
 		subs = append(subs, Account{Name: u.Name + "+12B", Addr: long, Str: long.String()}, Account{Name: u.Name + "[:8]", Addr: short, Str: short.String()})
+		// ... and the other way round (round 6, C10r6-1): 32 and 21 bytes BEGINNING with the holder's 20, and the holder's last 8
+		tail := sdk.AccAddress(append(append([]byte{}, u.Addr...), bytes.Repeat([]byte{0xCD}, 12)...))
+		plus1 := sdk.AccAddress(append(append([]byte{}, u.Addr...), 0x00))
+		last := sdk.AccAddress(append([]byte{}, u.Addr[len(u.Addr)-8:]...))
+		subs = append(subs, Account{Name: u.Name + "..12B", Addr: tail, Str: tail.String()}, Account{Name: u.Name + "..00", Addr: plus1, Str: plus1.String()},
+			Account{Name: u.Name + "[12:]", Addr: last, Str: last.String()})
 	}
 	for i, n := range states {
 		if i%rolesShards != shard {
